@@ -487,6 +487,33 @@ def handleIO (op : String) (args : List String) (impl : Option (List String)) : 
         | _ => false
       return (out, pv)
     | _, _, _ => return ("BADOP", none)
+  | "THREADS", [_, nt, _, _, _] =>
+    -- the serial per-thread results are the thread programs (operation i of thread t yields S[t][i]); the model executes an
+    -- interleaving of them (Threads.run); C19 on the implementation: the concurrent results are the model's
+    let n := nt.toNat?.getD 0
+    let pv := impl.map fun i => match i with
+      | "OK" :: rest =>
+        let grp (tag : Char) : List (List String) := Id.run do
+          let mut cur : Option (List String) := none
+          let mut acc : List (List String) := []
+          for t in rest do
+            let isMark := t.length ≥ 2 && (t.front == 'P' || t.front == 'S') && (t.drop 1).all Char.isDigit
+            if isMark then
+              if let some c := cur then acc := acc ++ [c.reverse]
+              cur := if t.front == tag then some [] else none
+            else if let some c := cur then cur := some (t :: c)
+          if let some c := cur then acc := acc ++ [c.reverse]
+          return acc
+        let par := grp 'P'
+        let ser := grp 'S'
+        let op (t : Nat) : Threads.Op Unit Nat String := fun _ l => (l + 1, (ser.getD t []).getD l "?")
+        let maxLen := ser.foldl (fun m l => max m l.length) 0
+        let events : List (Nat × Threads.Op Unit Nat String) :=
+          (List.range maxLen).flatMap fun k => (List.range n).filterMap fun t => if k < (ser.getD t []).length then some (t, op t) else none
+        let fin := Threads.run () (fun _ => (0, [])) events
+        par.length == n && ser.length == n && (List.range n).all fun t => (fin t).2.reverse == par.getD t ["??"]
+      | _ => false
+    return ("OK", pv)
   | "META", [path] =>
     let f ← readFile path
     let m := Header.openFile Sha.zckHash f
